@@ -3,7 +3,7 @@ E2: every transition of the edit-history search on which the call raised (any ex
 free list) and the component objects must be identical before / after, and tree(), params(limits=True), limits(), phases(), the save() document,
 solve() and rail_rep() must equal the reports of the predecessor state.  Rejected successors are merged with their predecessor only if equal, so
 'later calls behave as if the call had never been made' is explored rather than assumed."""
-from ..common import Run, Res, seed
+from ..common import workdir as _wd, cleanup_workdir as _cw, Run, Res, seed
 from .. import e2
 from ..reports import all_reports, diff_reports
 
@@ -60,7 +60,7 @@ def main(tier):
     run.samples.append({"seed": "rails", "history": [["ac", "Q0", "I", "N1", ""], ["dc", "QA", True]], "note": "second call is rejected (rail-valued target)"})
     for need in ("as:ValueError", "ac:ValueError", "cc:ValueError", "dc:ValueError", "sp:ValueError", "cp:ValueError"):
         run.require(need in kinds, "no rejected call of kind %s" % need)
-    __import__("shutil").rmtree(__import__("os").path.join(__import__("mc.common", fromlist=["VERIF"]).VERIF, ".work"), ignore_errors=True)
+    _cw()
     return run.finish(
         rule="E2 (same transition system as C14, plus set_sys_phases / set_comp_phases incl. malformed arguments: non-dict/list, a single phase, 'N/A', {} , unknown component, loss "
              "component, rail-valued target): depth <= %d, deviation budget <= %d from 5 seeds%s. For EVERY rejected call: K_full before == after, component objects identical, and 8 reports "
